@@ -59,7 +59,8 @@ Repr(seq) ==
             ELSE r3.end
   IN [r3 EXCEPT !.start = s4, !.end = e4]
 
-NodeDoc(ev) == CASE ev.e = "sp" -> SPACE
+NodeDoc(ev) == CASE "doc" \in DOMAIN ev -> ev.doc                        \* a node with its own Doc (a multi-line comment)
+                 [] ev.e = "sp" -> SPACE
                  [] ev.e = "code" -> Cat(T("#"), T(ev.txt))            \* Hash node, then the expression
                  [] OTHER -> T(ev.txt)
 RECURSIVE LineDoc(_, _, _)
@@ -81,7 +82,8 @@ Delim(b, scope, sym, hasLB, suppressed) ==
 MarkupDoc(seq, scope, suppressed) ==
   IF Len(seq) = 1 /\ seq[1].e \in {"sp", "nl"} THEN SPACE                     \* is_only_one_and(children, Space)
   ELSE LET r == Repr(seq)
-           hasLB == \E i \in 1..Len(seq) : seq[i].e = "nl"                   \* is_multiline: a Parbreak does NOT count
+           hasLB == \E i \in 1..Len(seq) : seq[i].e = "nl" \/ ("ml" \in DOMAIN seq[i] /\ seq[i].ml)
+                                     \* is_multiline: a Parbreak does NOT count, a block comment that spans lines does
            sym == r.start # "Nil" /\ r.end # "Nil"
        IN Enclose(LinesDoc(NIL, r.lines, 1), Delim(r.start, scope, sym, hasLB, suppressed),
                   Delim(r.end, scope, sym, hasLB, suppressed))
